@@ -15,7 +15,18 @@ import (
 // Some races between goroutines kill the process ("fatal error: concurrent map writes" cannot be recovered).
 // A case with Sub>0 therefore runs its concurrent part in a child process: the test binary re-executes itself
 // with childEnv naming the case file. Only hand-written witnesses use this; generated cases never do.
+//
+// A case with Cold=true (generated, see cold.go) runs its concurrent part in a child process as well, for another
+// reason: the child is a FRESH process, nothing of the library has been used in it, so whatever the library
+// initialises lazily on first use is initialised while several goroutines work on their documents.
 const childEnv = "VERIF_C07_CHILD"
+
+// coldReport is what the child of a cold case writes for its parent (normal binary only; the race twin's child
+// speaks through its exit status and the race detector's report).
+type coldReport struct {
+	Failures []kit.Failure `json:"failures"`
+	Evals    int           `json:"evals"`
+}
 
 func childMain(path string) int {
 	js, err := os.ReadFile(path)
@@ -29,59 +40,149 @@ func childMain(path string) int {
 		return 3
 	}
 	base := os.Getenv(childEnv + "_DIR")
-	reps := c.Sub
-	if reps < 1 {
-		reps = 1
+	if c.Cold {
+		// first of all, before anything else of the library has run in this process
+		noStepCounter = true
+		cr := runConcurrent(base, c, true)
+		noStepCounter = false
+		if out := os.Getenv(childEnv + "_OUT"); out != "" {
+			res := &kit.Result{}
+			for d := range c.Docs {
+				res.Eval("C07.I2")
+				for _, x := range cr.save[d] {
+					res.Fail("C07.I2", "doc=%d item=save-into-shared-directory: %s", d, x)
+				}
+				if kit.RaceMode() || cr.snaps[d] == nil {
+					continue
+				}
+				// the reference is built afterwards: the process is warm by then, which is what the reference is meant to be
+				alone, _ := runAlone(base, d, c.Docs[d], true)
+				judge(res, "C07.I2", d, alone, cr.snaps[d])
+				for _, x := range cr.i4[d] {
+					res.Fail("C07.I4", "doc=%d (own goroutine): %s", d, x)
+				}
+			}
+			rep, _ := json.Marshal(coldReport{Failures: res.Failures, Evals: len(c.Docs)})
+			os.WriteFile(out, rep, 0o644)
+		}
 	}
-	deadline := time.Now().Add(3 * time.Second) // the watchdog of the parent allows 20 s per case
+	reps := c.Sub
+	deadline := time.Now().Add(3 * time.Second) // the watchdog of the parent allows for it
 	for i := 0; i < reps && time.Now().Before(deadline); i++ {
 		runConcurrent(base, c, true)
 	}
 	return 0
 }
 
-func runInChild(res *kit.Result, c Case) {
-	res.Eval("C07.I3")
-	res.Label("conc:child-process")
+// spawnChild re-executes the test binary on the case. It returns the combined output, the error of the process
+// (nil = exit status 0) and whether the budget ran out (a slow machine is not a verdict).
+func spawnChild(c Case, base, out string, budget time.Duration) (text string, runErr error, timedOut bool) {
 	js, _ := json.Marshal(c)
 	f, err := os.CreateTemp(kit.Scratch, "c07-child-*.json")
 	if err != nil {
-		return
+		return "", nil, true
 	}
 	f.Write(js)
 	f.Close()
 	defer os.Remove(f.Name())
-	base, _ := os.MkdirTemp(kit.Scratch, "c07-child-")
-	defer os.RemoveAll(base)
-	// the context kills a child that exceeds the budget (a slow machine is not a verdict); using the context
-	// instead of touching cmd.Process from here keeps the harness itself free of data races
-	ctx, cancel := context.WithTimeout(context.Background(), 40*time.Second)
+	// the context kills a child that exceeds the budget; using the context instead of touching cmd.Process from
+	// here keeps the harness itself free of data races
+	ctx, cancel := context.WithTimeout(context.Background(), budget)
 	defer cancel()
 	cmd := exec.CommandContext(ctx, os.Args[0])
 	env := []string{}
 	for _, kv := range os.Environ() {
-		if strings.HasPrefix(kv, "GORACE=") || strings.HasPrefix(kv, childEnv+"=") {
+		if strings.HasPrefix(kv, "GORACE=") || strings.HasPrefix(kv, childEnv) {
 			continue
 		}
 		env = append(env, kv)
 	}
 	// in the race twin the child is a -race binary as well: first report ends it with status 66
-	env = append(env, childEnv+"="+f.Name(), childEnv+"_DIR="+base, "GORACE=halt_on_error=1 exitcode=66", "VERIF_SCRATCH="+kit.Scratch)
+	env = append(env, childEnv+"="+f.Name(), childEnv+"_DIR="+base, "GORACE=halt_on_error=1 exitcode=66 atexit_sleep_ms=0", "VERIF_SCRATCH="+kit.Scratch)
+	if out != "" {
+		env = append(env, childEnv+"_OUT="+out)
+	}
 	cmd.Env = env
-	out, runErr := cmd.CombinedOutput()
+	b, runErr := cmd.CombinedOutput()
 	if ctx.Err() != nil {
+		return string(b), runErr, true
+	}
+	return string(b), runErr, false
+}
+
+var raceMarkers = []string{"fatal error: concurrent map", "WARNING: DATA RACE"}
+
+func runInChild(res *kit.Result, c Case) {
+	res.Eval("C07.I3")
+	res.Label("conc:child-process")
+	base, _ := os.MkdirTemp(kit.Scratch, "c07-child-")
+	defer os.RemoveAll(base)
+	text, runErr, timedOut := spawnChild(c, base, "", 40*time.Second)
+	if timedOut {
 		res.Count("child-timeouts", 1)
 		return
 	}
 	if runErr == nil {
 		return
 	}
-	text := string(out)
-	for _, marker := range []string{"fatal error: concurrent map", "WARNING: DATA RACE"} {
+	for _, marker := range raceMarkers {
 		if i := strings.Index(text, marker); i >= 0 {
 			res.Fail("C07.I3", "child process working on %d distinct documents in %d goroutines died (%v): %s", len(c.Docs), len(c.Docs), runErr, clip(text[i:], 1200))
 			return
 		}
 	}
 	res.Fail("C07.I3", "child process died without a race marker (%v): %s", runErr, clip(text, 600))
+}
+
+// runCold executes the concurrent part of the case in a fresh process. Race twin: a race-detector report (or a
+// fatal error of the runtime) of the child is an I3 failure. Normal binary: the child compares what the
+// goroutines obtained with the same histories executed alone afterwards and reports the differences (I2).
+func runCold(res *kit.Result, c Case) {
+	res.Label("conc:cold-start")
+	base, _ := os.MkdirTemp(kit.Scratch, "c07-cold-")
+	defer os.RemoveAll(base)
+	out := ""
+	if !kit.RaceMode() {
+		out = base + ".report.json"
+		defer os.Remove(out)
+	}
+	cc := c
+	cc.Sub, cc.Reps = 0, 0
+	text, runErr, timedOut := spawnChild(cc, base, out, 15*time.Second)
+	if timedOut {
+		res.Count("child-timeouts", 1)
+		return
+	}
+	if kit.RaceMode() {
+		res.Eval("C07.I3")
+	}
+	if runErr != nil {
+		for _, marker := range raceMarkers {
+			if i := strings.Index(text, marker); i >= 0 {
+				res.Fail("C07.I3", "cold start: a fresh process in which %d goroutines worked on distinct documents from its first library call on died (%v): %s", len(c.Docs), runErr, clip(text[i:], 1200))
+				return
+			}
+		}
+		res.Fail("C07.I3", "cold start: the fresh process died without a race marker (%v): %s", runErr, clip(text, 600))
+		return
+	}
+	if out == "" {
+		return
+	}
+	js, err := os.ReadFile(out)
+	if err != nil {
+		res.Count("child-noreport", 1)
+		return
+	}
+	var rep coldReport
+	if json.Unmarshal(js, &rep) != nil {
+		res.Count("child-noreport", 1)
+		return
+	}
+	for i := 0; i < rep.Evals; i++ {
+		res.Eval("C07.I2")
+	}
+	for _, f := range rep.Failures {
+		res.Fail(f.Clause, "cold start (first library calls of a fresh process made by %d goroutines at once): %s", len(c.Docs), f.Detail)
+	}
 }
